@@ -22,7 +22,8 @@ CHECKS = {
              'encoded, tokenised by an independent tokenizer and parsed back; the finite table space is enumerated '
              'completely, open-ended segments up to N indices (by name, parsed, and assigned as text), VARIES_n components of every '
              'varies field, component gaps; every populated position is then re-assigned with an element that must be refused, '
-             'and another object of the same component name has its datatype overridden first.',
+             'and another object of the same component name has its datatype overridden first; a site shard sets default delimiters and '
+             'then the default version, and encodes repeated and single fields with the own and with a given delimiter set.',
         note='trusts er7ref tokenizer and tables.py; witness literal per base datatype'),
     'C03': dict(
         technique='runtime monitoring: conservation check over unique-token messages (reference tokenizer on input and output)',
@@ -31,7 +32,8 @@ CHECKS = {
              'counts are parsed with find_groups on and off; every leaf is a unique token, so any loss, duplication or '
              'reordering of segments or leaves, and any leaf changing place inside its field, is attributed directly by comparing '
              'tokenised input and output; v2.7+ messages alternate with and without a truncation character; profiles that '
-             'truncate a segment must refuse or conserve the later fields.',
+             'truncate a segment or the datatype of a field must refuse or conserve the later fields / components; blanks around the '
+             'text of the first field are data.',
         note='trusts er7ref tokenizer; an HL7apyException counts as surfaced'),
     'C04': dict(
         technique='runtime monitoring: icontract post-condition on the real Validator.validate + mutation oracle over API-built conforming instances',
@@ -153,7 +155,7 @@ CHECKS = {
              'delimiter edits, header surgery, garbled/Z segment names, CR/LF variants, junk) and fed to parse_message '
              '(both levels, find_groups on/off) and get_message_type; whatever parses must encode and validate to a report. '
              'Leaks are keyed by (stage, exception type, innermost hl7apy function). Every field row of every segment is '
-             'populated once with a hostile shape and pushed through the same stages; optional arguments of parse_message at '
+             'populated with a hostile shape and with 14 components x 3 sub-components, every alternative of every choice structure is sent once and twice in a row, and pushed through the same stages; optional arguments of parse_message at '
              'their edge values; reports written to a write-only object; the thorough tier adds a coverage-guided atheris session.',
         note='allowed: result, HL7apyException subclass, ValueError under STRICT'),
     'C16': dict(
@@ -166,7 +168,8 @@ CHECKS = {
              'checker requires exactly one invocation of the right handler with the framed text, the client receiving exactly '
              'that reply (70 kB - 20 MB replies included), built with its registered extra arguments, then close; malformed input: '
              'no handler, close; payloads with LF / CR LF, line-break-like characters in the header, five-character MSH-2; '
-             'handlers registered to raise hand their exception to the ERR handler.',
+             'handlers registered to raise hand their exception to the ERR handler; request handler classes with their own codec '
+             'and replies echoing non-ASCII text.',
         note='handlers are harness classes passed to MLLPServer; stall verdict is not time-based'),
     'C17': dict(
         technique='runtime monitoring: differential execution of an explicit-argument call corpus across default configurations',
@@ -174,7 +177,7 @@ CHECKS = {
         text='About 3,000 parser / constructor / encoder / validator / factory calls that name version, level and encoding '
              'characters (all versions, both levels, datatypes whose base/complex status differs between versions) are run under '
              'the baseline and under 12 default versions x 2 levels x 3 default delimiter sets (one carrying TRUNCATION); outcomes must be identical, and '
-             'elements created beforehand are re-observed after every change of the defaults. Consultations of the '
+             'elements created beforehand are re-observed after every change of the defaults; the three setters are called in rotating order and read back; valued elements of every base datatype are retyped and re-valued. Consultations of the '
              'get_default_* bindings are counted as diagnostic evidence.',
         note='parentless to_er7() always receives explicit characters; text assignment on parentless elements is delimiter-free'),
     'C18': dict(
@@ -183,7 +186,8 @@ CHECKS = {
         text='Profiles are synthesised from the standard structures by one edit (identity, tighten/require/forbid a child, swap a '
              'field datatype); the datatype and cardinality seen by elements created through parsing, traversal and add_*, and '
              'the validate() verdicts on standard-only / profile-only instances must follow the profile; identity changes nothing; '
-             'missing structure and legacy profile raise the stated exceptions; ITI-21 cardinalities are reported; also a segment '
+             'missing structure and legacy profile raise the stated exceptions; ITI-21 cardinalities are reported; a local (Z) segment '
+             'described by the profile; a sub-component forbidden inside a composite component; also a segment '
              'inside a group limited to two, a minimum of two, text / proxy / whole-message assignment under default and custom '
              'delimiters.',
         note='edited children are top-level, uniquely named segments, their leaf fields, and repeatable segments inside top-level groups'),
@@ -195,7 +199,7 @@ CHECKS = {
              'functions touching process-wide state, (c) a deterministic two-thread baton scheduler with every single hand-over at '
              'anchor events of warm calls, (d) fresh processes in which the first user of each version is pre-empted at the first '
              'hit of each distinct anchor location (lazy imports, table construction, first lookups), followed by a datatype '
-             'override in one thread and a parse in another, and preceded by two core-only calls made before anything imports the parser. Baton plans switch at the first and last visit of every distinct '
+             'override in one thread and a parse in another, and preceded by two core-only calls made before anything imports the parser - a pair also run alone with a hand-over at every distinct location it passes (module bodies included); every cold call encodes a leaf holding every delimiter; warm calls share one Z segment name with field numbers of their own. Baton plans switch at the first and last visit of every distinct '
              'anchor location and include two-switch schedules; anchors = functions touching module-level containers, globals or '
              'class attributes.',
         note='line-granularity interleavings under the GIL; reference of cold schedules computed in the parent process'),
